@@ -24,7 +24,7 @@ ASSUMPTIONS = ["values compared on the intersection of rows where both runs prod
                "hourly families, on days with usable usage in both runs for the daily family (a day without usage gets no prediction: C07), not for billing",
                "billing: the observed column is altered on the billing reads; the same read calendar is kept", "from_series entry: the first and last day of either run are not compared (the feed is cut to the span of the meter readings, so they may be partly spanned days)"]
 REQUIRED_REACH = {"pair.compared": 60, "pair.rows": 5000, "baseline.covers_all_months_and_weekdays": 6, "alteration.absent": 6, "alteration.all_nan": 6,
-                  "span.with_dst_change": 4, "span.with_weather_gaps": 4, "pair.presence_compared": 40, "pair.presence_rows": 5000, "span.daily_from_series_hourly_temperature": 2, "span.daily_from_series_interval_usage_with_weather_gaps": 2, "span.from_series_weather_gaps_over_local_midnight": 2, "span.with_duplicated_timestamps": 4}
+                  "span.with_dst_change": 4, "span.with_weather_gaps": 4, "pair.presence_compared": 40, "pair.presence_rows": 5000, "span.daily_from_series_hourly_temperature": 2, "span.daily_from_series_interval_usage_with_weather_gaps": 2, "span.from_series_weather_gaps_over_local_midnight": 2, "span.with_duplicated_timestamps": 4, "span.from_series_feed_in_another_zone_than_the_meter": 2}
 
 VIOL = []
 
@@ -117,7 +117,24 @@ def run_case(spec):
         I.reach("span.from_series_weather_gaps_over_local_midnight")
         temp = pd.Series(hT, index=hidx, name="temperature")
         meter = frame["observed"].rename("observed") if "observed" in frame.columns else None
-        return em.DailyReportingData.from_series(meter, temp, is_electricity_data=True)
+        kw = {}
+        if spec["n"] % 2:
+            # the weather feed arrives in UTC; without a meter series the site's zone is requested explicitly
+            temp = temp.tz_convert("UTC")
+            I.reach("span.from_series_feed_in_another_zone_than_the_meter")
+            if meter is None:
+                import zoneinfo
+                kw["tzinfo"] = zoneinfo.ZoneInfo(str(idx.tz))
+        return em.DailyReportingData.from_series(meter, temp, is_electricity_data=True, **kw)
+
+    def caltrack_series_entry(frame):
+        """CalTRACK hourly, second entry point: meter series on the site's clock (or none) + the weather feed in UTC"""
+        from opendsm.eemeter.models.hourly_caltrack import HourlyReportingData as CR_
+        meter = frame["observed"].rename("observed") if "observed" in frame.columns else None
+        I.reach("span.from_series_feed_in_another_zone_than_the_meter")
+        return CR_.from_series(meter, frame["temperature"].rename("temperature").tz_convert("UTC"), is_electricity_data=True)
+    if fam.kind == "caltrack":
+        spans = spans + [("month/caltrack-from_series-feed-in-utc", "2019-05-06", 28)]
 
     def ami_entry(frame):
         """daily family fed with interval data: HOURLY usage + HOURLY temperature (with outages) through from_series"""
@@ -128,7 +145,7 @@ def run_case(spec):
         spans = spans + [("partial/from_series-hourly-temperature", "2019-01-15" if tz != "Australia/Sydney" else "2019-07-15", 250),
                          ("partial/from_series-hourly-usage-and-temperature", "2019-02-10" if tz != "Australia/Sydney" else "2019-08-10", 120)]
     for sname, start, days in spans:
-        make_rd = ami_entry if "hourly-usage" in sname else series_entry if "from_series" in sname else fam.reporting_data
+        make_rd = caltrack_series_entry if "caltrack-from_series" in sname else ami_entry if "hourly-usage" in sname else series_entry if "from_series" in sname else fam.reporting_data
         base = fam.reporting_frame(rng, tz, start, days, with_observed=True)
         if "hourly-usage" in sname:
             base = FT.synth_hourly(tz=tz, start=start, days=days, seed=rng)[["temperature", "observed"]]
@@ -196,7 +213,7 @@ def run_case(spec):
                 # from_series cuts the weather feed to the span of the meter readings it is given: the first and the last day of either run may be
                 # partly spanned days of another length (the span of the reporting period is an input, not a usage value); they are not compared
                 edge = [x for r_ in (ref, got) if len(r_) for x in (r_.index[0], r_.index[-1])]
-                common = common.difference(pd.DatetimeIndex(edge))
+                common = common.difference(pd.DatetimeIndex([x.tz_convert("UTC") for x in edge]).tz_convert(common.tz)) if len(common) else common
             a, b = ref.loc[common], got.loc[common]
             fa, fb = np.isfinite(a["predicted"].to_numpy(dtype=float)), np.isfinite(b["predicted"].to_numpy(dtype=float))
             both = fa & fb
